@@ -304,6 +304,9 @@ func profC17() *RevProfile {
 	p.Schedules = 4
 	p.LatMax = 400
 	p.MaxCallers = 8
+	// schedules, not key types, are the subject: mostly the fast P-256 (signing
+	// dominates the cost of a bubble), the other kinds stay in the mix
+	p.KeyW = []int{88, 4, 4, 2, 2}
 	p.TimeInvariant = true
 	return p
 }
